@@ -7,7 +7,20 @@
 #define TMAX 8
 #endif
 namespace altintegration {
+// PopRewardsBigDecimal shell: only identity matters here - which table entry (or the constant 0.0) a value is
+struct PopRewardsBigDecimal {
+  int idx;   // position in relativeScoreLookupTable, -1 = constructed from the literal 0.0
+  PopRewardsBigDecimal() : idx(-2) {}
+  PopRewardsBigDecimal(double) : idx(-1) {}   // the only literal in the sliced function is 0.0
+};
+struct ScoreTable {   // std::vector<PopRewardsBigDecimal> relativeScoreLookupTable(): size() and operator[]
+  size_t n;
+  size_t size() const { return n; }
+  PopRewardsBigDecimal operator[](size_t i) const { __CPROVER_assert(i < n, "relativeScoreLookupTable index in range"); PopRewardsBigDecimal r; r.idx = (int)i; return r; }
+};
 struct PopPayoutsParams {
+  size_t tablen;
+  ScoreTable relativeScoreLookupTable() const { ScoreTable t; t.n = tablen; return t; }
   uint32_t rounds, ksround, flatround;
   bool useflat;
   uint32_t payoutRounds() const { return rounds; }
@@ -27,6 +40,8 @@ struct TreeShell { AltChainParams params; const AltChainParams& getParams() cons
 struct DefaultPopRewardsCalculator {
   TreeShell tree_;
   uint32_t getRoundForBlockNumber(uint32_t height) const;
+  PopRewardsBigDecimal getScoreMultiplierFromRelativeBlock(int relativeBlock) const;
 };
 #include "slices/getRoundForBlockNumber.inc"
+#include "slices/getScoreMultiplier.inc"
 }  // namespace altintegration
